@@ -20,7 +20,7 @@ from mc.core import harness as H
 ID = "C18"
 LEVEL = "exploration"
 
-_FILE_POOLS = [("p.zo", "q/r.zo"), ("notes.zo", "work/log.zo"), ("a1.zo", "x_y/z9.zo")]
+_FILE_POOLS = [("p.zo", "q r/s t.zo"), ("notes.zo", "work log/my log.zo"), ("a1.zo", "x y/z 9.zo")]
 _GROUP_POOLS = [("g1", "g2", "g3"), ("main", "proj", "misc"), ("a", "b", "c")]
 _ARG_POOLS = [("a.zo", "b/c.zo"), ("top.zo", "sub/dir/n.zo"), ("x.zo", "y/z.zo")]
 _ORDINARY = [dt.date(2024, 5, 15), dt.date(2023, 9, 20), dt.date(2025, 11, 7)]
